@@ -36,9 +36,8 @@ def elemsOf : PV → List PV
 
 theorem processFound_good (p : PropSpec) (vfn : Option (PV → Bool)) (v : PV) (h : goodVal v = true) :
     processFound p vfn v = .ok (strictOk p vfn ((elemsOf v).map convElem), dedupe ((elemsOf v).map convElem)) := by
-  have hel : (match v with
-      | .fset l => (pure l : Except Err (List PV))
-      | v => if v.hashable then pure [v] else throw (Err.type "unhashable-option-value")) = .ok (elemsOf v) := by
+  have hel : elemsOfM v = .ok (elemsOf v) := by
+    unfold elemsOfM
     cases v with
     | fset l => rfl
     | none => simp [goodVal, simpleElem] at h
@@ -48,9 +47,9 @@ theorem processFound_good (p : PropSpec) (vfn : Option (PV → Bool)) (v : PV) (
     | tuple l => simp [goodVal, simpleElem] at h
     | set l => simp [goodVal, simpleElem] at h
     | dict d => simp [goodVal, simpleElem] at h
-    | int i => simp [elemsOf, PV.hashable, pure, Except.pure]
-    | str s => simp [elemsOf, PV.hashable, pure, Except.pure]
-    | feat n g c => simp [elemsOf, PV.hashable, pure, Except.pure]
+    | int i => simp [elemsOf, PV.hashable]
+    | str s => simp [elemsOf, PV.hashable]
+    | feat n g c => simp [elemsOf, PV.hashable]
   have hall : (elemsOf v).all simpleElem = true := by
     cases v <;> simp_all [goodVal, elemsOf]
   unfold processFound
